@@ -435,6 +435,11 @@ func setList(m map[string]bool) []string {
 // rawLemmaUnit loads hand-written SMT-LIB lemma scripts (used where the fact is about a theory the VC generator
 // does not model, e.g. IEEE floating point). Header: "; obligation: <name>".
 func rawLemmaUnit(eng *Engine, o CheckOpts) *FnRun {
+	if o.Overlay != nil {
+		// a mutant run (selftest): the lemma scripts do not depend on the source under test, so a source mutation can
+		// neither break nor repair them; they are decided by every real check run
+		return nil
+	}
 	files, _ := filepath.Glob(filepath.Join(o.VerifDir, "specs", "lemmas", o.Prop+"-*.smt2"))
 	if len(files) == 0 {
 		return nil
